@@ -399,6 +399,8 @@ func ParseMemberExpr(p *ParserZH) syntax.Expression {
 		if match, tk := p.tryConsume(TypeIdentifier); match {
 			id := newID(p, tk)
 			p.setStmtCurrentLine(id, tk)
+			// the member expression itself may be a whole statement (其X): it needs its line too
+			p.setStmtCurrentLine(memberExpr, tk)
 			memberExpr.MemberType = syntax.MemberID
 			memberExpr.MemberID = id
 
